@@ -18,7 +18,7 @@ type TextCtx struct {
 }
 
 func (c *TextCtx) Fonts() text.FontConfiguration                          { return c.fc }
-func (c *TextCtx) HyphenCache() map[text.HyphenDictKey]hyphen.Hyphener     { return c.hyph }
+func (c *TextCtx) HyphenCache() map[text.HyphenDictKey]hyphen.Hyphener    { return c.hyph }
 func (c *TextCtx) StrutLayoutsCache() map[text.StrutLayoutKey][2]pr.Float { return c.strut }
 
 func NewTextCtx(engine string) *TextCtx {
